@@ -1,6 +1,6 @@
 (* C09 -- the hypotheses and guards of the theorems are satisfiable: instances at integer labels. *)
 Require Import SF.Prelude SF.Dtype SF.GrowOnly SF.GrowOnlyHier SF.GrowOnlyShare SF.GrowOnlyWorld
-  Proofs.GrowOnlyIndex Proofs.GrowOnlyBlocks Proofs.GrowOnlyFrame Proofs.GrowOnlyWorld.
+  Proofs.GrowOnlyIndex Proofs.GrowOnlyBlocks Proofs.GrowOnlyFrame Proofs.GrowOnlyWorld Proofs.GrowOnlyHier.
 
 Definition zpos (z : Z) : option Z := Some z.
 
@@ -31,7 +31,7 @@ Proof. vm_compute. auto. Qed.
 (* a FrameGO with rows 1,2 and one integer column labelled 5 *)
 Definition zcast (d : dtype) (v : Z) : Z := v.
 Definition zresolve (a b : dtype) : dtype := if dtype_eqb a b then a else DObj.
-Definition ex_tb : tb Z := tb_of_blocks Z 2 [mk_blk (DInt true 8) false 2 [[10; 20]]].
+Definition ex_tb : tb Z := tb_of_blocks Z zresolve 2 [mk_blk (DInt true 8) false 2 [[10; 20]]].
 Definition ex_fgo : fgo Z Z := mk_fgo [1; 2] (mk_igo [5] (Some [5]) 1 false [5] 1) ex_tb.
 
 Lemma ex_fgo_wf : fgo_wf Z Z Z.eqb zpos ex_fgo.
@@ -69,4 +69,15 @@ Proof.
   - intros [|[|i]] [|[|j]] fi fj Hij Hi Hj Hgo; cbn in *; try congruence;
       try (injection Hi as <-); try (injection Hj as <-); cbn in *; try discriminate;
       try (destruct i; discriminate); try (destruct j; discriminate); split; congruence.
+Qed.
+
+(* a two-level tree ('10',1), ('20',1) *)
+Definition ex_tree : lvl Z := Node [10; 20] [Leaf [1]; Leaf [1]].
+Lemma ex_tree_guard :
+  lvl_wf Z ex_tree /\ on_last_edge Z Z.eqb ex_tree [20; 2] = true /\
+  M_lappend Z Z.eqb ex_tree [20; 2] = Ok (Node [10; 20] [Leaf [1]; Leaf [1; 2]]) /\
+  on_last_edge Z Z.eqb ex_tree [30; 1] = true /\ on_last_edge Z Z.eqb ex_tree [10; 2] = false.
+Proof.
+  split; [|repeat split; reflexivity].
+  constructor; [reflexivity|]. repeat constructor.
 Qed.
